@@ -174,6 +174,12 @@ def suite_vec(tier, seed):
                 if 'Pairs' in p2 and not any(m['flav'] == 'small' for _, m in cfg.slots):
                     del p2['Pairs']
                 jobs.append((kind, cfg, p2))
+        # two SmallVectors of one type next to an amc::vector: a SmallVector that has adopted a vector's (small) heap buffer
+        # then takes part in same-type moves (the heterogeneous pair models have no second SmallVector of the same type)
+        vec3_ops = '{"ctorDefault", "ctorCountVal", "ctorFromVector", "ctorMove", "assignMove", "pushBack", "clear", "shrinkToFit", "destroy"}'
+        for name, elem, alloc in (('t_s2_s2_v_NTR', 'NTR', 'amcled'),) + ((('t_s2_s2_v_TR', 'TR', 'stdlike'),) if tier == 'thorough' else ()):
+            jobs.append(('vec3', ImplCfg(name, elem, alloc, [('small', 2, 'u32'), ('small', 2, 'u32'), ('vector', 0, 'u32')]),
+                         dict(Vals=[1], MaxLen=2, MaxCnt=1, Its=['ptr'], RLens=[0], Ops=vec3_ops, WalkLen=300, Alias=False)))
         models = {}
 
         def one(job):
@@ -279,6 +285,7 @@ def swap2_configs(tier):
         ('x_s2_v_NTR', 'NTR', 'amcled', [S('small', 2, 'u32'), S('vector', 0, 'u32')]),
         ('x_s2u8_v_TR', 'TR', 'amcled', [S('small', 2, 'u8'), S('vector', 0, 'u32')]),
         ('x_s2u8_v_NTRM', 'NTRM', 'stdlike', [S('small', 2, 'u8'), S('vector', 0, 'u32')]),
+        ('x_s2u8_vi8_TR', 'TR', 'amcled', [S('small', 2, 'u8'), S('vector', 0, 'i8')]),      # same width, different signedness
         ('x_f3_s2_NTR', 'NTR', 'stdlike', [S('fixed', 3), S('small', 2, 'u32')]),
         ('x_v_f2_TR', 'TR', 'stdlike', [S('vector', 0, 'u32'), S('fixed', 2)]),
         ('x_s2_s4_NTR', 'NTR', 'amcled', [S('small', 2, 'u32'), S('small', 4, 'u32')]),
@@ -600,6 +607,22 @@ def bigset_script(path, cms, big):
                         f.write(L('eraseKey', v=key))
                         f.write(L('insert', v=key))
                         f.write(L('eraseKey', v=key))
+                        # the same insertion with WRONG hints (a hint is only a hint), absent and present value
+                        if n <= 40 or r in (0, 1, n // 2, n - 1, n):
+                            for h in sorted(set([0, n, n // 2, max(0, pos - 9), min(n, pos + 9)])):
+                                f.write(L('insertHint', v=key, h=h))
+                                f.write(L('eraseKey', v=key))
+                                if r < n:
+                                    f.write(L('emplaceHint', v=2 * r, h=h))
+                        # a node handle re-inserted with the correct hint: extract an element, give it the value, insert
+                        if r < n and (n <= 40 or r in (0, 1, n // 2, n - 1)):
+                            f.write(L('extractKey', v=2 * r))
+                            f.write(L('nodeSetValue', v=key))
+                            # (the set has one element less: the position of the first element not less than key moves)
+                            hp = (r if not desc else n - r - 1)
+                            f.write(L('insertNodeHint', h=max(0, min(n - 1, hp))))
+                            f.write(L('eraseKey', v=key))
+                            f.write(L('insert', v=2 * r))
                 # heterogeneous keys equivalent to MANY elements (class v of width w: the elements with (key / mod) / w == v)
                 if n > 0:
                     for w in sorted(set([2, 6, 16, 2 * n + 2, max(2, n), max(2, n // 2)])):
@@ -1216,7 +1239,7 @@ SUITE_FN = {}
 PROP_SUITES = {
     'C01': ['vec'], 'C02': ['vec', 'swap2', 'fault', 'sets', 'setfault', 'words'], 'C03': ['sets'], 'C04': ['sets'], 'C05': ['vec', 'sets', 'words'],
     'C06': ['vec', 'swap2', 'fault', 'sets', 'setfault'], 'C07': ['vec', 'swap2', 'words'], 'C08': ['limit'], 'C09': ['fault', 'setfault', 'words'],
-    'C10': ['vec'], 'C11': ['sets'], 'C12': ['sets'], 'C13': ['swap2'], 'C14': ['vec', 'swap2', 'sets', 'static'], 'C18': ['vec', 'growth', 'swap2'],
+    'C10': ['vec'], 'C11': ['sets'], 'C12': ['sets', 'bigsets'], 'C13': ['swap2'], 'C14': ['vec', 'swap2', 'sets', 'static'], 'C18': ['vec', 'growth', 'swap2'],
     'C19': ['sets', 'bigsets'], 'C20': ['vec', 'sets', 'readers'], 'C15': ['memalgo'], 'C17': ['static'], 'C16': ['matrix'],
 }
 
